@@ -266,6 +266,10 @@ fn statement_expect(body: &[u8], hv: &[u8]) -> Option<(u16, Vec<u8>, Option<Stri
 }
 
 impl Group for Wire {
+    // a real server / real sockets with read timeouts: a failure counts if it shows again when the same case is re-run
+    fn timing_sensitive(&self) -> bool {
+        true
+    }
     fn name(&self) -> &'static str {
         "c09.wire"
     }
